@@ -11,3 +11,5 @@ import Props.C15
 #print axioms C15.soft_in_equals_fresh
 #print axioms C15.soft_in_idempotent
 #print axioms C15.soft_in_then_changes
+#print axioms C15.distinct_addr_keys
+#print axioms C15.refresh_lock_premise
